@@ -25,6 +25,10 @@ def unhx (s : String) : Bytes := if s == "-" then [] else unhxAux s.toList
 
 def atou (s : String) : Nat := s.toNat?.getD 0
 
+/-- revision token: decimal, or `c` / `c+N` = relative to the committed revision -/
+def relRev (committed : Nat) (s : String) : Nat :=
+  if s.startsWith "c" then committed + atou ((s.drop 2).toString) else atou s
+
 /-- split trailing `k=v` tokens from positional ones -/
 def parseOpts (toks : List String) : List String × List (String × String) :=
   toks.foldr (fun t (acc : List String × List (String × String)) =>
